@@ -147,6 +147,39 @@ def rule_force_send_keeps(ctx, facts, rule):
                   extra="push%d" % pushes.index(p))
 
 
+def rule_replay_keeps(ctx, facts, rule):
+    """A parked command that still does not fit goes back onto the overflow list (send and force_send)."""
+    field = overflow_field(facts)
+    prov = Prov(facts)
+    n = 0
+    for name in ("send", "force_send"):
+        fn = facts.fn("%s::<T>::%s" % (SENDER, name))
+        if fn is None or field is None:
+            continue
+        ops = classify_ops(fn, prov, field)
+        enq = [b for b, role, _, _ in ops if role == "enq"]
+        for p in ring_pushes(fn):
+            src = prov.of_operand(fn, fn.term(p)["args"][1])
+            if not has_origin(src, kind="param", key=1, path_suffix=("." + field,)):
+                continue
+            n += 1
+            sws = result_switch(fn, p)
+            ok = bool(sws)
+            wit = None
+            for sw in sws:
+                err = fn.variant_edges(sw, ["Err"])
+                m, w = fn.must_pass([(a, d) for a, d, _ in err], enq) if err else (False, None)
+                if not m:
+                    ok, wit = False, w
+            ctx.check(ok, rule, fn.path, fn.loc(p),
+                      "%s: a replayed command that meets a full ring is put back on the overflow list (finish/cancel signals are never dropped)" % name,
+                      "re-enqueue blocks %s" % enq,
+                      "the result of pushing a parked command is %s: the parked CommitCollect/DropCollect is lost" % (
+                          "not matched (e.g. map_err(..)?)" if not sws else "matched but a Full path returns at bb%s without re-enqueueing" % wit),
+                      extra="replay-" + name)
+    ctx.floor(rule, SENDER, n, 2, "ring pushes of replayed commands")
+
+
 def rule_sender_drop(ctx, facts, rule):
     """Thread exit flushes the overflow list into the ring, oldest first."""
     field = overflow_field(facts)
